@@ -56,6 +56,42 @@ impl World {
 }
 
 impl World {
+    /// Upper estimate of the characters the parser is handed when every occurrence of
+    /// `.include "name"` - wherever it stands on a line (faulted text can put hundreds on one) - is
+    /// followed: the size of the program the analyzer really sees. Capped at `cap`.
+    pub fn effective_chars(&self, cap: usize) -> usize {
+        fn go(w: &World, path: &str, depth: usize, cap: usize, budget: &mut usize) -> usize {
+            let Some(text) = w.files.get(path) else { return 0 };
+            let mut total = text.len();
+            if depth > 12 {
+                return total;
+            }
+            let mut rest = text.as_str();
+            while let Some(at) = rest.find(".include") {
+                rest = &rest[at + 8..];
+                let Some(q) = rest.find('"') else { break };
+                if !rest[..q].trim().is_empty() {
+                    continue;
+                }
+                let after = &rest[q + 1..];
+                let Some(e) = after.find('"') else { break };
+                if *budget == 0 || total > cap {
+                    return total.max(cap + 1);
+                }
+                *budget -= 1;
+                if let Some(t) = resolve(dir_of(path), &after[..e]) {
+                    if t != path {
+                        total += go(w, &t, depth + 1, cap, budget);
+                    }
+                }
+                rest = &after[e + 1..];
+            }
+            total
+        }
+        let mut budget = 20_000usize;
+        go(self, &self.base, 0, cap, &mut budget)
+    }
+
     /// Resolve `rel` against directory `dir` the way the file system does: components are walked
     /// one by one and a component that is a directory symlink of this world (`special`) is replaced
     /// by its target before going on, so that `link/../x.s` lands next to the link's *target*.
@@ -301,6 +337,14 @@ pub fn statement_continues<S: AsRef<str>>(lines: &[S]) -> Vec<bool> {
         } else if t.starts_with(".macro") {
             in_macro = true;
         } else if t.starts_with(|c: char| c.is_ascii_digit() || c == '-') {
+            continues[k] = true;
+        }
+    }
+    // blank and comment-only lines do not end a list: one that stands in front of a continuation
+    // line is inside the statement as well
+    for k in (0..lines.len().saturating_sub(1)).rev() {
+        let t = lines[k].as_ref().trim();
+        if (t.is_empty() || t.starts_with('#')) && continues[k + 1] {
             continues[k] = true;
         }
     }
